@@ -3,6 +3,7 @@ From LV Require Import Model.Rescale.
 From Coq Require Import Qreduction Lqa Field.
 
 Local Open Scope Qc_scope.
+Arguments util_rescale : simpl never.
 
 Lemma zq_this z : this (zq z) = inject_Z z.
 Proof. unfold zq, Q2Qc; cbn [this]. apply Qred_identity. cbn. apply Z.gcd_1_r. Qed.
@@ -230,12 +231,15 @@ Qed.
 
 (* ---- util.rescale ---- *)
 Lemma util_rescale_ok o img s r : util_rescale o img s = Ok r ->
-  qint img = false /\ onr r = rescale_shape (qnr img) s /\ onc r = rescale_shape (qnc img) s /\
+  True /\ onr r = rescale_shape (qnr img) s /\ onc r = rescale_shape (qnc img) s /\
   forall i j, oget r i j = sample o img (coord (qnr img) (onr r) s i) (coord (qnc img) (onc r) s j).
-Proof. unfold util_rescale. destruct (qint img); [discriminate|]. intros H; injection H as <-. cbn. auto. Qed.
+Proof. unfold util_rescale. intros H; injection H as <-. cbn. auto. Qed.
 
-Lemma util_rescale_int o img s : qint img = true -> util_rescale o img s = Err ValueError.
-Proof. unfold util_rescale. now intros ->. Qed.
+Lemma util_rescale_total o img s : exists r, util_rescale o img s = Ok r.
+Proof. unfold util_rescale. eauto. Qed.
+
+Lemma util_rescale_as_float o img s : util_rescale o (as_float img) s = util_rescale o img s.
+Proof. reflexivity. Qed.
 
 (* ---- Plane.rescale: structure ---- *)
 Lemma rbind_ok {A B} (r : result A) (f : A -> result B) b :
@@ -302,7 +306,7 @@ Proof. intros H. induction 1; constructor; auto. Qed.
 Theorem rescale_bookkeeping P s P' : plane_rescale P s = Ok P' ->
   (forall a, p_amp P = FArr a -> exists a', o_amp P' = OArr a' /\
       onr a' = rescale_shape (qnr a) s /\ onc a' = rescale_shape (qnc a) s) /\
-  (forall v, p_amp P = FScalar v -> o_amp P' = OScalar v) /\
+  (forall v, p_amp P = FScalar v -> o_amp P' = OScalar (v / s)) /\
   (forall a, p_opd P = FArr a -> exists a', o_opd P' = OArr a' /\
       onr a' = rescale_shape (qnr a) s /\ onc a' = rescale_shape (qnc a) s) /\
   (forall v, p_opd P = FScalar v -> o_opd P' = OScalar v) /\
@@ -364,7 +368,8 @@ Theorem identity_at_one P P' : plane_rescale P 1 = Ok P' ->
       Forall2 (fun a a' => onr a' = qnr a /\ onc a' = qnc a /\
         forall i j, (0 <= i < qnr a)%Z -> (0 <= j < qnc a)%Z ->
           oget a' i j = Known (if nz (qget a i j) then 1 else Q2Qc 0)) l l') /\
-  o_ps P' = p_ps P.
+  o_ps P' = p_ps P /\
+  (forall v, p_amp P = FScalar v -> o_amp P' = OScalar v).
 Proof. intros H. apply plane_rescale_inv in H as (Ha & Ho & Hm & Hp). repeat split.
   - intros a E. rewrite E in Ha. apply rescale_fld_arr in Ha as (r & Hr & ->).
     apply util_rescale_one in Hr as (H1 & H2 & H3). eexists; split; [reflexivity|]. cbn [onr onc omap].
@@ -381,6 +386,7 @@ Proof. intros H. apply plane_rescale_inv in H as (Ha & Ho & Hm & Hp). repeat spl
     apply util_rescale_one in Hu as (H1 & H2 & H3). cbn [onr onc omap]. repeat split; auto.
     intros i j Hi Hj. rewrite omap_get, H3 by assumption. reflexivity.
   - rewrite Hp. destruct (p_ps P) as [[px py]|]; cbn; [|reflexivity]. f_equal. f_equal; field; exact Qcanon.Q_apart_0_1.
+  - intros v E. rewrite E in Ha. cbn in Ha. injection Ha as <-. f_equal. field. exact Qcanon.Q_apart_0_1.
 Qed.
 
 (* (c) nodes of the sampling grid for integer factors and unit fractions *)
@@ -544,24 +550,28 @@ Proof. intros Ha Hb En Em Hd i j [H1 H2].
   rewrite H1, H2 in Hd. discriminate.
 Qed.
 
-(* the finding: an integer (or bool) mask, e.g. the mask of every rescaled plane, is refused *)
-Definition int_mask_plane : plane :=
-  mkPlane (FScalar 1) (FScalar (Q2Qc 0)) (MMono (mkQ 2 2 (fun _ _ => 1) true)) (Some (1, 1)).
-Lemma integer_mask_refused : plane_rescale int_mask_plane (zq 2) = Err ValueError.
-Proof. reflexivity. Qed.
+(* integer / bool arrays are handled exactly like their float casts *)
+Lemma rescale_masks_as_float l s : rescale_masks (map as_float l) s = rescale_masks l s.
+Proof. induction l as [|a t IH]; cbn; [reflexivity|]. rewrite IH. reflexivity. Qed.
 
-Theorem integer_dtype_refused P s a :
-  p_amp P = FScalar 1 -> p_opd P = FScalar (Q2Qc 0) -> p_mask P = MMono a -> qint a = true ->
-  plane_rescale P s = Err ValueError.
-Proof. intros Ea Eo Em Ei. unfold plane_rescale, rescale_msk. rewrite Ea, Eo, Em. cbn. unfold util_rescale. rewrite Ei. reflexivity. Qed.
-
-Lemma integer_mask_refuted :
-  (forall (P : plane) (s : Qc) (a : qarr),
-     p_amp P = FScalar 1 -> p_opd P = FScalar (Q2Qc 0) -> p_mask P = MMono a -> qint a = true ->
-     plane_rescale P s = Err ValueError) /\
-  plane_rescale (mkPlane (FScalar 1) (FScalar (Q2Qc 0)) (MMono (mkQ 2 2 (fun _ _ => 1) true)) (Some (1, 1))) (zq 2)
-    = Err ValueError.
-Proof. split; [exact integer_dtype_refused|reflexivity]. Qed.
+Theorem integer_arrays_like_float_casts P s :
+  plane_rescale (plane_as_float P) s = plane_rescale P s /\
+  (forall new_ps, plane_resample (plane_as_float P) new_ps = plane_resample P new_ps) /\
+  (forall o a, exists r, util_rescale o a s = Ok r).
+Proof.
+  assert (E : forall s, plane_rescale (plane_as_float P) s = plane_rescale P s).
+  { intros s0. unfold plane_rescale, plane_as_float; cbn [p_amp p_opd p_mask p_ps].
+    assert (Ef : forall f post, rescale_fld (fld_as_float f) s0 post = rescale_fld f s0 post) by (intros [v|a] post; reflexivity).
+    assert (Em : rescale_msk (msk_as_float (p_mask P)) s0 = rescale_msk (p_mask P) s0).
+    { unfold rescale_msk. destruct (p_mask P) as [v|a|l]; cbn [msk_as_float rescale_msk0]; try reflexivity.
+      rewrite rescale_masks_as_float. reflexivity. }
+    rewrite !Ef, Em. reflexivity. }
+  repeat split.
+  - apply E.
+  - intros new_ps. unfold plane_resample. cbn [plane_as_float p_ps].
+    destruct (p_ps P) as [[px py]|]; [|reflexivity]. destruct (qeqb px py); [apply E|reflexivity].
+  - intros o a. apply util_rescale_total.
+Qed.
 
 (* no segment vanishes silently: a successful call leaves at least one sample set in the mask / in every segment;
    a mask or segment that would come out empty makes the call raise IndexError *)
@@ -594,6 +604,23 @@ Proof. split.
         exists i, j. repeat split; try lia.
         destruct (Hs i j) as (b & Hb). rewrite Hb in H1 |- *. destruct b; [reflexivity|discriminate].
   - intros fa fo m0 Ha Ho Hm Hne. unfold plane_rescale, rescale_msk. rewrite Ha, Ho, Hm. cbn. rewrite Hne. reflexivity.
+Qed.
+
+(* a scalar amplitude v becomes v/s: the same value an array of the constant v gets at every pinned sample *)
+Theorem scalar_amplitude_divided P s v :
+  p_amp P = FScalar v ->
+  (forall P', plane_rescale P s = Ok P' -> o_amp P' = OScalar (v / s)) /\
+  (forall a Pa' a' i j u, (forall y x, qget a y x = v) ->
+     plane_rescale (mkPlane (FArr a) (p_opd P) (p_mask P) (p_ps P)) s = Ok Pa' ->
+     o_amp Pa' = OArr a' -> oget a' i j = Known u -> u = v / s).
+Proof. intros Ev. split.
+  - intros P' H. apply plane_rescale_inv in H as (Ha & _). rewrite Ev in Ha. cbn in Ha. now injection Ha as <-.
+  - intros a Pa' a' i j u Hc H E Hu.
+    destruct (known_samples_spec _ _ _ H) as (K & _). cbn [p_amp] in K.
+    destruct (K a a' i j u eq_refl E Hu) as [(y & x & _ & _ & _ & _ & ->)|(-> & Hz)].
+    + now rewrite Hc.
+    + unfold zero_cluster in Hz. rewrite !Hc in Hz. destruct (nz v) eqn:Ez; [discriminate|].
+      apply nz_false in Ez. subst v. unfold Qcdiv. ring.
 Qed.
 
 Lemma ceil_spec n s :
